@@ -55,7 +55,9 @@ Record rest_case := mkRest
     rc_dmode : option kind;      (* the Done event the controller produced, if any *)
     (* observed *)
     rc_wrapped : bool;           (* the handler ran on another goroutine than ServeHTTP's caller *)
-    rc_sched : list ev; rc_hobs : list ares; rc_sout : sres;
+    rc_sched : list ev;          (* the linearisation the executor settled on *)
+    rc_alts : list (list ev);    (* the other linearisations it could not tell apart (see below) *)
+    rc_hobs : list ares; rc_sout : sres;
     rc_status : Z;               (* 0 = header never written *)
     rc_snap : hdrs; rc_live : hdrs; rc_body : list Z;
     rc_extra : Z;                (* header names outside the script's namespace *)
@@ -98,25 +100,34 @@ Definition sres_eqb (a b : sres) : bool :=
   | _, _ => false
   end.
 
-Definition rest_agrees (c : rest_case) : bool :=
-  Bool.eqb (wrapped (rc_dur c) (rc_rq c)) (rc_wrapped c) &&
-  dl_agrees (rest_deadline (rc_dur c) (rc_rq c) (rc_parent c) 0)
-            (rest_deadline (rc_dur c) (rc_rq c) (rc_parent c) (rc_t1 c)) (rc_dl c) &&
-  (rc_extra c =? 0) && (rc_late c =? 0) && (rc_foreign c =? 0) &&
+(* The executor orders H and D events itself; the select (S) runs free and is seen
+   only when ServeHTTP returns, a real timer's expiry is not seen at all.  Where the
+   place of S (or of a timer D) among the neighbouring H events has no effect that
+   the executor can see at that moment, it reports the latest place as [rc_sched]
+   and the earlier ones as [rc_alts]; the model has to reproduce all observations
+   under one of them. *)
+Definition rest_agrees_sched (c : rest_case) (sched : list ev) : bool :=
   if rc_wrapped c then
-    match run_strict (init (rc_h0 c) (rc_script c)) (rc_sched c) with
+    match run_strict (init (rc_h0 c) (rc_script c)) sched with
     | Some (s, obs) =>
       list_eqb ares_eqb obs (rc_hobs c) && rw_eqb (rw s) (obs_rw c) &&
       sres_eqb (sout_of_sst (sst s)) (rc_sout c)
     | None => false
     end
   else
-    match xrun_strict (xinit (rc_h0 c) (rc_script c)) (rc_sched c) with
+    match xrun_strict (xinit (rc_h0 c) (rc_script c)) sched with
     | Some (s, obs) =>
       list_eqb ares_eqb obs (rc_hobs c) && rw_eqb (xrw s) (obs_rw c) &&
       sres_eqb (sout_of_hst (xhst s)) (rc_sout c)
     | None => false
     end.
+
+Definition rest_agrees (c : rest_case) : bool :=
+  Bool.eqb (wrapped (rc_dur c) (rc_rq c)) (rc_wrapped c) &&
+  dl_agrees (rest_deadline (rc_dur c) (rc_rq c) (rc_parent c) 0)
+            (rest_deadline (rc_dur c) (rc_rq c) (rc_parent c) (rc_t1 c)) (rc_dl c) &&
+  (rc_extra c =? 0) && (rc_late c =? 0) && (rc_foreign c =? 0) &&
+  existsb (rest_agrees_sched c) (rc_sched c :: rc_alts c).
 
 (* --- the property on the observed response ------------------------- *)
 
